@@ -213,6 +213,16 @@ class C18(runner.Prop):
         self.check_obj(obj, f'class {d}', ctx)
         # classification must also agree with what flatten does
         inst = make_instance(cls)
+        # instance attributes that shadow what the classifiers read from the *class* (possible without __slots__)
+        if not d['slots']:
+            for attr, val in (('_fields', ('lon', 'lat')), ('n_sequence_fields', 1), ('_make', None)):
+                shadow = make_instance(cls)
+                try:
+                    object.__setattr__(shadow, attr, val)
+                except Exception:  # noqa: BLE001
+                    continue
+                self.check_obj(shadow, f'class {d} instance with own attribute {attr}', ctx)
+                ctx.label('instance_attribute_shadows_class')
         try:
             kind = optree.tree_structure(inst).kind
         except Exception as e:  # noqa: BLE001
